@@ -3,6 +3,7 @@
 package server
 
 import (
+	"bytes"
 	"encoding/binary"
 	"fmt"
 	"strings"
@@ -164,6 +165,15 @@ func (p vkPkt) build() []byte {
 			wn := vkPackName(name)
 			b = append(b, wn[:len(wn)/2]...)
 			return
+		case "len255", "len256", "len257":
+			// a well-formed label sequence whose wire length (root octet included) is exactly 255 (the longest
+			// legal name), 256 and 257 octets: three 63-octet labels and one of 61 / 62 / 63
+			last := map[string]int{"len255": 61, "len256": 62, "len257": 63}[p.NameForm]
+			for i, n := range []int{63, 63, 63, last} {
+				b = append(b, byte(n))
+				b = append(b, bytes.Repeat([]byte{byte('a' + i)}, n)...)
+			}
+			b = append(b, 0)
 		default:
 			b = append(b, vkPackName(name)...)
 		}
@@ -316,6 +326,9 @@ func vkPacketAlphabet(name string, thorough bool) []vkPkt {
 	add(func(p *vkPkt) { p.Name = strings.ToUpper(name) })
 	add(func(p *vkPkt) { p.NameForm = "ptr" })
 	add(func(p *vkPkt) { p.NameForm = "trunc" })
+	add(func(p *vkPkt) { p.NameForm = "len255" })
+	add(func(p *vkPkt) { p.NameForm = "len256" })
+	add(func(p *vkPkt) { p.NameForm = "len257" })
 	add(func(p *vkPkt) { p.Trailing = 5 })
 	// OPT shapes
 	add(func(p *vkPkt) { p.OPT = true; p.Size = 0 })
@@ -323,7 +336,12 @@ func vkPacketAlphabet(name string, thorough bool) []vkPkt {
 	add(func(p *vkPkt) { p.OPT = true; p.Size = 300; p.DO = true })
 	add(func(p *vkPkt) { p.OPT = true; p.Size = 65535 })
 	add(func(p *vkPkt) { p.OPT = true; p.Size = 1232; p.Version = 1 })
-	add(func(p *vkPkt) { p.OPT = true; p.Size = 1232; p.Version = 1; p.Options = []string{"ecs4", "cookie8", "padding"} })
+	add(func(p *vkPkt) {
+		p.OPT = true
+		p.Size = 1232
+		p.Version = 1
+		p.Options = []string{"ecs4", "cookie8", "padding"}
+	})
 	add(func(p *vkPkt) { p.OPT = true; p.Size = 1232; p.ExtRcode = 1 })
 	add(func(p *vkPkt) { p.OPT = true; p.Size = 1232; p.OPTName = "x." })
 	add(func(p *vkPkt) { p.OPT = true; p.Size = 1232; p.OPT2 = true })
@@ -336,8 +354,17 @@ func vkPacketAlphabet(name string, thorough bool) []vkPkt {
 		add(func(p *vkPkt) { p.OPT = true; p.Size = 1232; p.DO = true; p.Options = []string{k} })
 	}
 	add(func(p *vkPkt) { p.OPT = true; p.Size = 1232; p.Options = []string{"cookie8", "cookie8b"} })
-	add(func(p *vkPkt) { p.OPT = true; p.Size = 1232; p.Options = []string{"cookie24", "nsid", "padding", "unknown"} })
-	add(func(p *vkPkt) { p.OPT = true; p.Size = 1232; p.DO = true; p.Options = []string{"nsid", "keepalive0", "ecs4"} })
+	add(func(p *vkPkt) {
+		p.OPT = true
+		p.Size = 1232
+		p.Options = []string{"cookie24", "nsid", "padding", "unknown"}
+	})
+	add(func(p *vkPkt) {
+		p.OPT = true
+		p.Size = 1232
+		p.DO = true
+		p.Options = []string{"nsid", "keepalive0", "ecs4"}
+	})
 	add(func(p *vkPkt) { p.OPT = true; p.Size = 1232; p.CD = true; p.Options = []string{"cookie8", "ecs4"} })
 	if thorough {
 		for i := 0; i < len(optKinds); i++ {
